@@ -283,6 +283,7 @@ func (ge *genEnv) modelTexts(cs []*genCase) error {
 }
 
 var posRe = regexp.MustCompile(`^[^:\s]+\.go:\d+(:\d+)?: `)
+var noGoFilesRe = regexp.MustCompile(`^package (scratch/g\d+): build constraints exclude all Go files`)
 
 // compileAll builds every selected generated package in one scratch module, then one probe binary that
 // imports all packages that compiled and prints what they report.
@@ -327,10 +328,37 @@ func (ge *genEnv) compileAll(cs []*genCase) error {
 		if end > len(pkgs) {
 			end = len(pkgs)
 		}
-		cmd := exec.Command("go", append([]string{"build", "-p", "16"}, pkgs[start:end]...)...)
-		cmd.Dir = mod
-		cmd.Env = ge.goenv
-		out, _ := cmd.CombinedOutput()
+		chunk := append([]string{}, pkgs[start:end]...)
+		var out []byte
+		for len(chunk) > 0 {
+			cmd := exec.Command("go", append([]string{"build", "-p", "16"}, chunk...)...)
+			cmd.Dir = mod
+			cmd.Env = ge.goenv
+			out, _ = cmd.CombinedOutput()
+			// a package whose files go/build ignores ("package documentation") is a LOAD error: go build reports
+			// "package scratch/g7: build constraints exclude all Go files in <dir>" and compiles nothing at all.
+			// Such packages fail; the rest of the chunk is built again without them.
+			excluded := map[string]bool{}
+			for _, line := range strings.Split(string(out), "\n") {
+				if m := noGoFilesRe.FindStringSubmatch(line); m != nil {
+					if c := byDir[m[1]]; c != nil {
+						c.compile = "fail"
+						c.compileErr = "build constraints exclude all Go files"
+						excluded["./"+strings.TrimPrefix(m[1], "scratch/")] = true
+					}
+				}
+			}
+			if len(excluded) == 0 {
+				break
+			}
+			var keep []string
+			for _, p := range chunk {
+				if !excluded[p] {
+					keep = append(keep, p)
+				}
+			}
+			chunk, out = keep, nil
+		}
 		var cur *genCase
 		for _, line := range strings.Split(string(out), "\n") {
 			if strings.HasPrefix(line, "# ") {
@@ -428,6 +456,7 @@ func compileErrClass(msg string) string {
 	table := []struct{ sub, class string }{
 		{"imported and not used", "unused-import"},
 		{"function main is undeclared in the main package", "package-main"},
+		{"build constraints exclude all Go files", "package-documentation"},
 		{"invalid recursive type", "recursive-type"},
 		{"field and method with the same name", "field-method-clash"},
 		{"already declared", "method-redeclared"},
